@@ -322,6 +322,38 @@ def d3(cx: Cx, ob: Ob) -> None:
         return
     wi, wev, wctx, (wobj, mode) = first_write
     ob.site(f"{where(fn, wev.line)} {fn.qualname}", f"first write-open: {show(wobj)[:30]} mode {mode!r}")
+    update_mode = isinstance(mode, str) and "r" in mode and "+" in mode
+    if update_mode:
+        # 'r+' does not truncate: the file is untouched until the first write / truncate through the handle, and
+        # what is written over the old content has to be cut to length afterwards
+        WRITES = ("write", "writelines", "writerow", "writerows", "truncate")
+        first_touch = None
+        truncates = []
+        for i, (ev, ctx) in enumerate(flat):
+            if i <= wi:
+                continue
+            for t in s.syn.get(ev.line, ()):
+                for c in subterms(t):
+                    if op(c) == "call" and op(c[1]) == "attr" and c[1][2] in WRITES:
+                        if first_touch is None:
+                            first_touch = (i, ev, ctx)
+                        if c[1][2] == "truncate":
+                            truncates.append((i, ev, c))
+        if first_touch is None:
+            ob.undecide(f"_file_helper opens the file in mode {mode!r} and no write through the handle was found")
+            return
+        if not truncates:
+            ob.violate(
+                fn.qualname,
+                where(fn, first_touch[1].line),
+                f"the file is opened in mode {mode!r} (no truncation) and rewritten from the start without a truncate(): when the converted table is shorter than the original, the old tail stays behind the new rows",
+                witness="file_compress on a table of URIs: CURIEs are shorter, the last original rows survive after the converted ones (the first of them torn)",
+                detail="no-truncate",
+            )
+        elif any(c[2] and not is_const(c[2][0], None) for _, _, c in truncates):
+            ob.undecide("truncate() is called with an explicit size")
+        wi, wev, wctx = first_touch
+        ob.site(f"{where(fn, wev.line)} {fn.qualname}", f"first write through the {mode!r} handle")
     # accepted alternative: write to another file and os.replace it over the original
     replaces = [c for c, _, _ in s.calls() if op(c[1]) == "ext" and c[1][1] in ("os.replace", "os.rename", "shutil.move")] + [c for c, _, _ in s.calls("replace") if op(c[1]) == "attr" and len(c[2]) == 1] + [c for c, _, _ in s.calls("rename") if op(c[1]) == "attr"]
     via_temp = bool(replaces) and not any(x == ("lv", "path") or x == ("param", "path") for x in subterms(wobj))
@@ -347,9 +379,9 @@ def d3(cx: Cx, ob: Ob) -> None:
                 detail="convert-after-open",
             )
     if not via_temp:
-        if wctx.loops:
+        if wctx.loops and not update_mode:
             ob.violate(fn.qualname, where(fn, wev.line), "the file is opened for writing inside the read loop", detail="open-in-loop")
-        if any(_reads(w) for w in wctx.withs):
+        if not update_mode and any(_reads(w) for w in wctx.withs):
             ob.violate(fn.qualname, where(fn, wev.line), "the file is opened for writing while it is still open for reading", detail="open-in-read-with")
     # reads after the write-open: a loop that iterates the csv reader object itself
     reader_names = {ev.a for ev, _ in flat if ev.kind == "bind" and op(ev.b) == "call" and op(ev.b[1]) == "ext" and ev.b[1][1] == "csv.reader"}
